@@ -14,7 +14,7 @@ func genConfig(job *simkit.Job, rng *simkit.RNG) Config {
 	return Config{Profile: prof, Frag: []int{0, 0, 1, 7, 200}[rng.Intn(5)], ChanCap: 1024, Steps: rng.Range(12, 60), CoarseDisk: rng.Chance(1, 2)}
 }
 
-var hostsPool = []string{"kittens.com", "kittens.com:4444", "xn--bcher-kva.example", "10.9.8.7", "10.9.8.7:443", "moose.example.org:1", "[2001:db8::2]:8443"}
+var hostsPool = []string{"kittens.com", "kittens.com:4444", "xn--bcher-kva.example", "10.9.8.7", "10.9.8.7:443", "moose.example.org:1", "[2001:db8::2]:8443", "bücher.example", "bücher.example:8443", "例え.jp"}
 var sniPool = []string{"", "sni.example.com", "c2.example.net"}
 var c2Pool = []string{"moose.com", "moose.com:8443", "192.0.2.9:443", "xn--bcher-kva.example", "a.b:1"}
 
